@@ -114,6 +114,21 @@ def _fct(case, bad):
                         bad("forward(inverse(z)) != z", "fct=%s" % name, "z=%r" % (numpy.asarray(y1).ravel().tolist(),))
                     if tr.transform(X, None)[1] is not None:
                         bad("transform(X, None) invents targets", "fct=%s" % name, "")
+        # integer-dtype targets (counts): the round trip must give the counts back
+        for vec in itertools.product((1, 2, 3, 7), repeat=2):
+            yi = numpy.array(vec, dtype=numpy.int64)
+            cnt += 1
+            try:
+                tr = FunctionReciprocalTransformer(name).fit()
+                _, y1 = tr.transform(X, yi)
+                _, y2 = tr.get_fct_inv().transform(X, y1)
+                ref = FunctionReciprocalTransformer.available_fcts()[name][0](yi.astype(numpy.float64))
+                if not _same(y1, ref):
+                    bad("forward(y) differs for integer targets", "fct=%s" % name, "y=%r -> %r expected %r" % (vec, numpy.asarray(y1).tolist(), ref.tolist()))
+                elif not numpy.allclose(numpy.asarray(y2, dtype=float), yi, rtol=1e-12):
+                    bad("inverse(forward(y)) != y", "fct=%s,integer targets" % name, "y=%r back=%r" % (vec, numpy.asarray(y2).tolist()))
+            except Exception as e:
+                bad("raises %s" % type(e).__name__, "fct=%s,integer targets" % name, "%s y=%r" % (e, vec))
     return cnt, True
 
 
